@@ -127,6 +127,21 @@ pub fn compare_traces(pred: &Pred, act: &Actual, top_ok_and_events_agree: Option
                         owners.push("C13");
                         what = "the previous response is malformed and must count as a failure".into();
                     }
+                    Why::Starts if matches!(pk, Some(Kind::Instantiate) | Some(Kind::Migrate)) => {
+                        owners.push("C11");
+                        if pk == Some(Kind::Migrate) {
+                            owners.push("C12");
+                        }
+                        what = "the registry must accept this request and run the entry point of the stored code".into();
+                    }
+                    Why::RegistryReject if matches!(ak, Some(Kind::Instantiate) | Some(Kind::Migrate)) => {
+                        owners.push("C11");
+                        what = "the registry must reject this request (unknown code id, duplicate address, invalid salt, empty label or no such contract)".into();
+                    }
+                    Why::Unauthorized if ak == Some(Kind::Migrate) => {
+                        owners.push("C12");
+                        what = "only the current admin may migrate".into();
+                    }
                     _ => {}
                 }
             }
@@ -215,6 +230,8 @@ pub fn compare_traces(pred: &Pred, act: &Actual, top_ok_and_events_agree: Option
 pub fn okerr_owners(pred: &Pred) -> Vec<&'static str> {
     let mal = pred.whys.iter().filter(|(_, w)| matches!(w, Why::AfterMalformed)).count();
     let ovd = pred.whys.iter().filter(|(_, w)| matches!(w, Why::Overdraft)).count();
+    let reg = pred.whys.iter().filter(|(_, w)| matches!(w, Why::RegistryReject)).count();
+    let una = pred.whys.iter().filter(|(_, w)| matches!(w, Why::Unauthorized)).count();
     let mut owners = vec![];
     if mal > 0 {
         owners.push("C13");
@@ -222,7 +239,13 @@ pub fn okerr_owners(pred: &Pred) -> Vec<&'static str> {
     if ovd > 0 {
         owners.push("C05");
     }
-    if pred.failures > mal + ovd || owners.is_empty() {
+    if reg > 0 {
+        owners.push("C11");
+    }
+    if una > 0 {
+        owners.push("C12");
+    }
+    if pred.failures > mal + ovd + reg + una || owners.is_empty() {
         owners.push("C02");
     }
     owners
